@@ -320,8 +320,12 @@ SETTINGS_FRAME = frame(0x04, enc_varint(0x01) + enc_varint(4096) + enc_varint(0x
 # ------------------------------------------------------------------ one case
 
 
+LOCAL_METHOD = [b"GET"]  # method of the request a client victim itself sent on the stream the response arrives on
+
+
 def case_dict(kind, block, enc, body, ending, chunk, trunc=None):
     return {
+        "local_method": LOCAL_METHOD[0].decode(),
         "trunc": list(trunc) if trunc else None,
         "gen": "replay",
         "kind": kind,
@@ -404,7 +408,9 @@ def run_case(res, kind, block, enc="lsq", body=(), ending="fin_frame", chunk="on
     if is_client:
         peer_ctrl, peer_enc, push_sid = 3, 7, 15
         sid0 = quic.get_next_available_stream_id()
-        h3.send_headers(sid0, REQ, end_stream=True)  # local API, valid input: not under test
+        # local API, valid input: not under test (the method is a workload dimension: what the application asked for
+        # must not change what counts as a well-formed response)
+        h3.send_headers(sid0, [(b":method", LOCAL_METHOD[0])] + REQ[1:], end_stream=True)
     else:
         peer_ctrl, peer_enc, push_sid = 2, 6, None
         sid0 = 0
@@ -898,6 +904,15 @@ def gen_clen(batch, res):
                 for enc in ("lsq", "dyn"):
                     run_case(res, kind, block, enc, body, ending, chunk)
                     res.count("content_length_cases")
+                if kind in ("response", "resp_trailers") and ending in ("fin_frame", "lone_fin", "trailers_fin"):
+                    # the same response to a request the victim sent with another method
+                    for meth in (b"HEAD", b"POST", b"OPTIONS"):
+                        LOCAL_METHOD[0] = meth
+                        try:
+                            run_case(res, kind, block, "lsq", body, ending, chunk)
+                        finally:
+                            LOCAL_METHOD[0] = b"GET"
+                        res.count("content_length_cases_other_request_method")
     # final DATA frame cut short by the end of the stream: announced != delivered
     for pre in ([], [3], [0]):
         for tk, tj in TRUNCS:
@@ -963,6 +978,7 @@ def gen_misc(batch, res):
 
 def gen_replay(batch, res):
     block = [(bytes.fromhex(n), bytes.fromhex(v)) for n, v in batch["block"]]
+    LOCAL_METHOD[0] = batch.get("local_method", "GET").encode()
     run_case(
         res, batch["kind"], block, batch.get("enc", "lsq"), batch.get("body", []), batch.get("ending", "fin_frame"),
         batch.get("chunk", "one"), tuple(batch["trunc"]) if batch.get("trunc") else None,
